@@ -1,7 +1,9 @@
 """C17 — every call awaiting a reply completes exactly once (sequential core)."""
-META = {"explanation": "see harness/C17_pending.c", "outside": ["real thread interleavings, condition-variable hand-off in blocking waits", "timer arithmetic", "send path (message marshalling, outgoing queue)"]}
+META = {"explanation": "see harness/C17_pending.c", "outside": ["real thread interleavings, condition-variable hand-off between several blocked threads", "timer arithmetic", "send path (message marshalling, outgoing queue)"]}
 PRE_NAME = ["nothing", "reply", "timeout", "cancel"]; PRE_VAL = [4, 0, 1, 2]
 def jobs(tier):
+    return _core() + _block()
+def _core():
     return [Job(name=f"{'close.after_' + PRE_NAME[c - 1] if c else 'two_events'}.N{n}", group="C17.close" if c else "C17.core", harness="harness/C17_pending.c", defines=dict({"NCALLS": n}, **({"WITH_CLOSE": 1, "PRE": PRE_VAL[c - 1]} if c else {})), real=["dbus/dbus-list.c"],
                 env=["assert_stubs.c", "pool_lock.c"], checks="assert", unwind=6, unwindset=["strcmp.0:64", "vf_streq.0:64"], timeout=1200, mem_gb=20,
                 encodes=["dbus_connection_dispatch", "complete_pending_call_and_unlock", "_dbus_connection_attach_pending_call_unlocked", "_dbus_connection_detach_pending_call_and_unlock",
@@ -11,3 +13,20 @@ def jobs(tier):
                 stubs=["connection lock = ghost flag", "pending_replies = 2-slot int map calling the value-free function", "timeouts = records", "messages = records (R8)", "object tree dispatch = not handled"],
                 bounds=f"{n} attached call(s), " + ("first event fixed by the job (" + (PRE_NAME[c - 1] if c else "") + " for call 0), then the peer closes and everything queued is dispatched" if c else "two symbolic events out of REPLY(r: 32-bit) / TIMEOUT(i) / CANCEL(i)"),
                 shape=f"{n} calls, " + ("close after " + PRE_NAME[c - 1] if c else "two events")) for n in (1, 2) for c in (0, 1, 2, 3, 4)]
+
+def _block():
+    J = []
+    for tmo, tn in ((25000, "t25s"), (0x7fffffff, "inf")):
+        for sc in ("R", "NR", "SR", "NSR", "C", "NC", "SC", "RC", "N", "NN", "S"):
+            if tn == "inf" and not any(c in sc for c in "RC"): continue        # an infinite wait on a silent, open connection never returns: no finite run to check
+            J.append(Job(name=f"block.{tn}.{sc}", group="C17.block", harness="harness/C17_pending.c", defines={"NCALLS": 1, "WITH_BLOCK": 1, "TMO": tmo, "SCRIPT": '"' + sc + '"'}, real=["dbus/dbus-list.c"],
+                         env=["assert_stubs.c", "pool_lock.c"], checks="assert", unwind=6, unwindset=["strcmp.0:64"], extra=["--object-bits", "12"], timeout=900, mem_gb=16,
+                         encodes=["_dbus_connection_block_pending_call", "check_for_reply_and_update_dispatch_unlocked", "_dbus_connection_do_iteration_unlocked", "_dbus_connection_acquire_io_path",
+                                  "_dbus_connection_release_io_path", "_dbus_connection_get_dispatch_status_unlocked", "notify_disconnected_and_dispatch_complete_unlocked",
+                                  "connection_timeout_and_complete_all_pending_calls_unlocked", "complete_pending_call_and_unlock", "generate_local_error_message", "_dbus_connection_flush_unlocked"],
+                         stubs=["transport iteration = the job's concrete peer script (N nothing / S unrelated signal / R the reply / C close), silent afterwards", "monotonic clock = symbolic non-decreasing milliseconds",
+                                "reference counts: _dbus_atomic_dec asserts 'not the last reference' and returns that constant", "connection lock / I/O path = ghost flags (single thread)"],
+                         assumes=["single thread: nobody else holds the I/O path or dispatches concurrently", "after the script plus one silent iteration a finite timeout has elapsed (loop bound)"],
+                         bounds=f"one call with {'an infinite' if tn == 'inf' else 'a 25 s'} timeout; peer script '{sc}'; every clock reading symbolic (0..40 s apart); reply type symbolic",
+                         shape=f"blocking wait, timeout {tn}, peer script {sc}"))
+    return J
